@@ -899,14 +899,9 @@ func func_RemoveKeysByRegex(rtParams FunctionParameterTypes, val any) (any, erro
 		return nil, fmt.Errorf("regular expression is invalid")
 	}
 
-	doForMapPerKey(val, func(keyAsString string, keyAsValue, mapAsValue reflect.Value) {
-		if exp.MatchString(keyAsString) {
-			// This deletes the key if it matches the regex
-			mapAsValue.SetMapIndex(keyAsValue, reflect.Value{})
-		}
+	return copyMapWithoutKeys(val, func(keyAsString string) bool {
+		return exp.MatchString(keyAsString)
 	})
-
-	return nil, fmt.Errorf("value is not a map")
 }
 
 const FT_RemoveKeysByPrefix FT_FunctionType = "RemoveKeysByPrefix"
@@ -921,14 +916,9 @@ func func_RemoveKeysByPrefix(rtParams FunctionParameterTypes, val any) (any, err
 		return nil, err
 	}
 
-	doForMapPerKey(val, func(keyAsString string, keyAsValue, mapAsValue reflect.Value) {
-		if strings.HasPrefix(keyAsString, prefixParam) {
-			// This deletes the key if it matches the regex
-			mapAsValue.SetMapIndex(keyAsValue, reflect.Value{})
-		}
+	return copyMapWithoutKeys(val, func(keyAsString string) bool {
+		return strings.HasPrefix(keyAsString, prefixParam)
 	})
-
-	return nil, fmt.Errorf("value is not a map")
 }
 
 const FT_RemoveKeysBySuffix FT_FunctionType = "RemoveKeysBySuffix"
@@ -943,14 +933,9 @@ func func_RemoveKeysBySuffix(rtParams FunctionParameterTypes, val any) (any, err
 		return nil, err
 	}
 
-	doForMapPerKey(val, func(keyAsString string, keyAsValue, mapAsValue reflect.Value) {
-		if strings.HasSuffix(keyAsString, prefixParam) {
-			// This deletes the key if it matches the regex
-			mapAsValue.SetMapIndex(keyAsValue, reflect.Value{})
-		}
+	return copyMapWithoutKeys(val, func(keyAsString string) bool {
+		return strings.HasSuffix(keyAsString, prefixParam)
 	})
-
-	return nil, fmt.Errorf("value is not a map")
 }
 
 const FT_Not FT_FunctionType = "Not"
@@ -2164,6 +2149,33 @@ func getMapValues(input any) ([]any, error) {
 		result[i] = normalizeValue(v.MapIndex(key).Interface())
 	}
 	return result, nil
+}
+
+// copyMapWithoutKeys returns a copy of the map in val without the (string-like) keys for which
+// shouldRemove is true. The map that was passed in is left untouched.
+func copyMapWithoutKeys(val any, shouldRemove func(keyAsString string) bool) (any, error) {
+	v := reflect.ValueOf(val)
+	switch v.Kind() {
+	case reflect.Pointer, reflect.Interface:
+		v = v.Elem()
+	}
+
+	if v.Kind() != reflect.Map {
+		return nil, fmt.Errorf("value is not a map")
+	}
+
+	out := reflect.MakeMapWithSize(v.Type(), v.Len())
+	for _, e := range v.MapKeys() {
+		out.SetMapIndex(e, v.MapIndex(e))
+	}
+
+	doForMapPerKey(out.Interface(), func(keyAsString string, keyAsValue, mapAsValue reflect.Value) {
+		if shouldRemove(keyAsString) {
+			mapAsValue.SetMapIndex(keyAsValue, reflect.Value{})
+		}
+	})
+
+	return out.Interface(), nil
 }
 
 // stringKeyedMaps converts the map[interface{}]interface{} values that yaml.v2 produces for nested
